@@ -65,6 +65,9 @@ func (s *lootState) project() map[string]any {
 			return nil
 		}
 		// benign, server-owned locations
+		if rel == "data/server.cert" || rel == "data/server.key" { // the operator endpoint's certificate, written by Teamserver.Start
+			return nil
+		}
 		if rel == "data" || rel == "data/"+lootName || strings.HasPrefix(rel, "data/ts.db") || rel == "data/"+lootName+"/agents" || rel == "data/"+lootName+"/listener" || strings.HasPrefix(rel, "data/"+lootName+"/listener/") {
 			return nil
 		}
